@@ -4,8 +4,8 @@ builder calls, the substitution of a table in a spec ("the same calls with B in 
 from harness import terms_family as tf
 from harness.lib import S, OS, B as Bc, L, P
 
-EXTRA = ("agg", "analytic", "extract", "period", "nested", "subq", "insub", "cmpsub", "exists", "vwterm", "attz")
-PY_ONLY = ("vwterm", "attz")          # no constructor in the model (oracle only)
+EXTRA = ("agg", "analytic", "extract", "period", "nested", "subq", "insub", "cmpsub", "exists", "vwterm", "attz", "union")
+PY_ONLY = ("vwterm", "attz", "union")          # no constructor in the model (oracle only)
 
 
 # ----------------------------------------------------------------------------------------------
@@ -106,6 +106,8 @@ def build(t):
         return T.ValueWrapper(build(t[1]))
     if k == "attz":         # ["attz", field-spec, zone]
         return T.AtTimezone(build(t[1]), t[2])
+    if k == "union":        # ["union", qspec, qspec]   a set operation (a Term and a Selectable)
+        return build_q(t[1]).union(build_q(t[2]))
     raise ValueError("unknown term kind %r" % (k,))
 
 
@@ -172,6 +174,8 @@ def sub_queries(t):
         return [t[3]]
     if k == "exists":
         return [t[1]]
+    if k == "union":
+        return [t[1], t[2]]
     return []
 
 
@@ -263,6 +267,8 @@ def subst(A, B, t):
         return ["vwterm", r(t[1])]
     if k == "attz":
         return ["attz", r(t[1]), t[2]]
+    if k == "union":
+        return ["union", rq(t[1]), rq(t[2])]
     return t
 
 
